@@ -389,3 +389,8 @@ Section Wf.
       wf_trace (result_trace C h').
 End Wf.
 
+Arguments CallAuto {C}. Arguments CallRaw {C}. Arguments CanonAuto {C}. Arguments CanonRaw {C}.
+Arguments DCall {C}. Arguments DAp {C}. Arguments DCanon {C}. Arguments DPar {C}. Arguments DFold {C}.
+Arguments DNil {C}. Arguments DCons {C}. Arguments GNil {C}. Arguments GCons {C}.
+Arguments BPlain {C}. Arguments BHole {C}.
+Arguments HNextMore {C}. Arguments HNextEnd {C}. Arguments HParL {C}. Arguments HParR {C}.
